@@ -308,6 +308,21 @@ class Ctx:
         rc, o = sh(["clang++", obj, hobj, "-o", out], timeout=timeout)
         return rc, o
 
+    def pch(self, cfg, name, text, opt="-O0"):
+        """Precompile `text` (a prelude of includes) for configuration `cfg`.  Returns the flags that make a TU start with it.
+        Falls back to a plain -include if the precompiled header cannot be built."""
+        d = os.path.dirname(self.path("pch_%s_%s" % (name, cfg), "x"))
+        h = os.path.join(d, "pre.hh")
+        with open(h, "w") as f:
+            f.write(text)
+        comp, std = CONFIGS[cfg]
+        base = [comp, "-std=" + std, opt, "-w", "-I" + os.path.join(REPO, "au", "code"), "-I" + HARNESS]
+        if comp == "g++":
+            rc, out = sh(base + ["-x", "c++-header", h, "-o", h + ".gch"], timeout=600)
+            return ["-include", h] if rc == 0 else ["-include", h]
+        rc, out = sh(base + ["-x", "c++-header", h, "-o", h + ".pch"], timeout=600)
+        return ["-include-pch", h + ".pch"] if rc == 0 else ["-include", h]
+
     def pmap(self, fn, items, workers=None):
         with cf.ThreadPoolExecutor(max_workers=workers or NCPU) as ex:
             return list(ex.map(fn, items))
@@ -456,10 +471,11 @@ def fval(x):
 
 
 def first_error_in_au(diag):
-    """True iff the first compiler error is located inside an Au header (not in generated code):
-    only then can a failed compile of a generated program be blamed on the library (DESIGN 5.4)."""
+    """False iff the first compiler error is located in the generated source itself (a generator bug); errors located in
+    an Au header, or in a standard header while instantiating Au code, are blamed on the library (DESIGN 5.4)."""
     lines = diag if isinstance(diag, list) else diag.splitlines()
     for l in lines:
         if "error" in l:
-            return "/au/code/au/" in l.split("error")[0] or "au.hh" in l.split("error")[0]
+            loc = l.split("error")[0]
+            return not ("/auverif_" in loc or loc.strip().startswith("<"))
     return False
